@@ -78,6 +78,19 @@ pub fn note(what: &str) {
     if let Ok(mut n) = w().slots[i].note.lock() { n.clear(); n.push_str(what); }
 }
 
+/// Scenarios that run outside `run_sharded` (model-free oracles after the sharded cases) are watched, too: a scenario
+/// that does not return within the limit is reported like a stuck case.  Slots 96.. are reserved for these.
+pub fn guarded<T>(what: &str, f: impl FnOnce() -> T) -> T {
+    use std::sync::atomic::AtomicUsize;
+    static NEXT: AtomicUsize = AtomicUsize::new(0);
+    let slot = 96 + NEXT.fetch_add(1, Ordering::Relaxed) % 32;
+    begin(slot, 0);
+    note(what);
+    let r = f();
+    end(slot);
+    r
+}
+
 /// start the watchdog once per process
 pub fn start(family: &str, out: &str, prop: &str, limit: Duration) {
     let wt = w();
@@ -88,15 +101,17 @@ pub fn start(family: &str, out: &str, prop: &str, limit: Duration) {
     std::thread::spawn(move || loop {
         std::thread::sleep(Duration::from_millis(200));
         let now = wt.t0.elapsed().as_millis() as u64 + 1;
-        for s in &wt.slots {
+        for (si, s) in wt.slots.iter().enumerate() {
             let since = s.since.load(Ordering::Acquire);
-            if since != 0 && now.saturating_sub(since) > limit.as_millis() as u64 {
+            // whole scenarios (slots 96..) get fifteen times the allowance of a single case
+            let allowed = limit.as_millis() as u64 * if si >= 96 { 15 } else { 1 };
+            if since != 0 && now.saturating_sub(since) > allowed {
                 let family = wt.family.lock().map(|g| g.clone()).unwrap_or_default();
                 let note = s.note.try_lock().map(|g| g.clone()).unwrap_or_default();
                 let idx = s.index.load(Ordering::Relaxed);
                 let case = if note.is_empty() { format!("{family} case #{idx}") } else { format!("{note}  [{family} case #{idx}]") };
                 let mut rep = Report::new(&family, "watchdog: a case of the real code did not return");
-                let mut v = json!({"case": case, "real": "no return", "what": format!("the real code did not return within {} s on this input (it hangs); the run was stopped", limit.as_secs())});
+                let mut v = json!({"case": case, "real": "no return", "what": format!("the real code did not return within {} s on this input (it hangs); the run was stopped", allowed / 1000)});
                 if family.starts_with("push") { v["prop"] = json!("C03"); }
                 rep.violate(v);
                 rep.notes.push("stopped by the watchdog; the other cases of this run were not evaluated".into());
